@@ -780,7 +780,12 @@ func (view *View) Limit(ctx context.Context, scope *ReferenceScope, clause parse
 		} else if percentage < 0 {
 			limit = 0
 		} else {
-			limit = int(math.Ceil(float64(view.RecordLen()+view.offset) * percentage / 100))
+			// the percentage is taken of the records before OFFSET; the sum and the product are formed as floats,
+			// because an offset beyond the records can be as large as the largest integer
+			limit = view.RecordLen()
+			if f := math.Ceil((float64(view.RecordLen()) + float64(view.offset)) * percentage / 100); f < float64(limit) {
+				limit = int(f)
+			}
 		}
 	} else {
 		number := value.ToInteger(val)
